@@ -1,0 +1,47 @@
+//go:build verif
+
+package hermes
+
+// Verification hooks (build tag "verif"): a probe called from the day loop and
+// exported shims around unexported kernels. Nothing here is compiled into a
+// normal build.
+
+// VerifProbe, when set, is called at the probe points of the day loop
+// (stages: "evatra-pre", "evatra", "steps", "water-pre", "water", "nitro-pre", "nitro", "dayend").
+var VerifProbe func(stage string, zeit, subd int, wdt float64, g *GlobalVarsMain, w *WaterSharedVars, n *NitroSharedVars)
+
+func verifProbe(stage string, zeit, subd int, wdt float64, g *GlobalVarsMain, w *WaterSharedVars, n *NitroSharedVars) {
+	if VerifProbe != nil {
+		VerifProbe(stage, zeit, subd, wdt, g, w, n)
+	}
+}
+
+// VerifNmove runs the unexported transport kernel.
+func VerifNmove(wdt float64, subd int, zeit int, g *GlobalVarsMain, l *NitroSharedVars) {
+	nmove(wdt, subd, zeit, g, l)
+}
+
+// VerifMineral runs the unexported mineralisation kernel.
+func VerifMineral(g *GlobalVarsMain, l *NitroSharedVars) {
+	mineral(g, l)
+}
+
+// VerifDueng runs dueng (fertiliser table lookup and split of event i).
+func VerifDueng(i int, g *GlobalVarsMain, l *InputSharedVars, hPath *HFilePath) {
+	dueng(i, g, l, hPath)
+}
+
+// VerifCalcWRed runs calcWRed.
+func VerifCalcWRed(wiltingPoint, fieldCapacity float64, g *GlobalVarsMain) {
+	calcWRed(wiltingPoint, fieldCapacity, g)
+}
+
+// VerifSetFieldCapacityWithGW runs setFieldCapacityWithGW.
+func VerifSetFieldCapacityWithGW(g *GlobalVarsMain) {
+	setFieldCapacityWithGW(g)
+}
+
+// VerifReadConfig runs readConfig (defaults, project configuration file, command line override).
+func VerifReadConfig(g *GlobalVarsMain, argValues map[string]string, hp *HFilePath) Config {
+	return readConfig(g, argValues, hp)
+}
